@@ -16,6 +16,17 @@
 #define XSIMD_VERSION_MINOR 2
 #define XSIMD_VERSION_PATCH 0
 
+// Verification seam (off unless XSIMD_VERIF is defined): a step clock ticked by the
+// data-dependent loops, so that a harness can bound iteration counts per call.
+#ifndef XSIMD_VERIF_LOOP_TICK
+#ifdef XSIMD_VERIF
+extern "C" void xsimd_verif_loop_tick(const char* file, int line);
+#define XSIMD_VERIF_LOOP_TICK() ::xsimd_verif_loop_tick(__FILE__, __LINE__)
+#else
+#define XSIMD_VERIF_LOOP_TICK() ((void)0)
+#endif
+#endif
+
 /**
  * high level free functions
  *
